@@ -1,7 +1,7 @@
 (* C07 - blade-step operators are exact; histories accumulate exactly.  Pinned theorems only. *)
 From Coq Require Import ZArith List Bool Reals Lra.
 From Flocq Require Import Core BinarySingleNaN.
-Require Import GV.FloatBase GV.FloatLemmas GV.AngleM GV.AngleProofs GV.GeonumM GV.GeonumProofs.
+Require Import GV.FloatBase GV.FloatLemmas GV.AngleM GV.AngleProofs GV.GeonumM GV.GeonumProofs GV.NewProofs GV.CtorProofs.
 Open Scope R_scope.
 
 (* steps_to a a' k : blade a' = blade a + k, remainder numerically unchanged and finite *)
@@ -51,3 +51,22 @@ Theorem C07_four_more : forall g, canonp (rem (ang g)) ->
   steps_to (ang g) (ang (integrate (differentiate g))) 4.
 Proof. exact four_more. Qed.
 Print Assumptions C07_four_more.
+
+(* copy_blade: the other's exact blade when that is not smaller; otherwise congruent modulo 4 and
+   3..6 above the current blade; remainder and magnitude untouched (blades below 2^50) *)
+Theorem C07_copy_blade : forall g other, canonp (rem (ang g)) ->
+  (0 <= blade (ang g) < 2 ^ 50)%Z -> (0 <= blade (ang other) < 2 ^ 50)%Z ->
+  mag (copy_blade g other) = mag g /\
+  R_ (rem (ang (copy_blade g other))) = R_ (rem (ang g)) /\
+  ((blade (ang g) <= blade (ang other))%Z -> blade (ang (copy_blade g other)) = blade (ang other)) /\
+  ((blade (ang other) < blade (ang g))%Z ->
+     (blade (ang g) + 3 <= blade (ang (copy_blade g other)) <= blade (ang g) + 6)%Z /\
+     (blade (ang (copy_blade g other)) mod 4 = blade (ang other) mod 4)%Z).
+Proof. exact copy_blade_spec. Qed.
+Print Assumptions C07_copy_blade.
+
+(* the grade angle of a canonical angle is finite and lies in [0, 4q), q the double nearest pi/2 *)
+Theorem C07_grade_angle_range : forall a, canonp (rem a) ->
+  fin (grade_angle a) /\ 0 <= R_ (grade_angle a) < 4 * R_ Q.
+Proof. exact grade_angle_range. Qed.
+Print Assumptions C07_grade_angle_range.
